@@ -208,6 +208,7 @@ def run(tier, seed, argv):
     rep.extra["norm_sandwich_side_lemma"] = lem
     if lem != "unsat":
         rep.harness_errors.append(dict(job="lemma", why=f"side lemma not proved: {lem}"))
+    rep.validate_standin(6 if tier == "quick" else 24)
     rep.absorb("warm-up", par.run_jobs(jobs, chunk=4))
     rep.absorb("norm-transfer", par.run_jobs(njobs, chunk=4))
     tw = par.run_jobs([dict(id="twin0", module="checks.c02", factory="make_norm",
